@@ -16,6 +16,7 @@ RULE = ("seeded cases from families {int-ties, floats, dyadic-edges, single, con
 TRUSTED = ["numpy floor/argsort(kind=stable)", "fractions.Fraction"]
 ASSUMPTIONS = ["data finite; bin size > 0; limits always include at least one datum",
                "data whose IEEE and exact-rational bin index differ make the call's count comparison skipped"]
+THOROUGH_ROUNDS = 3      # the thorough tier runs the generator over this many derived seeds
 REQUIRED = {"quick": {"C05.hist": 1500, "C05.engines": 400, "C05.binner": 400},
             "thorough": {"C05.hist": 30000, "C05.engines": 8000, "C05.binner": 8000}}
 
